@@ -1,6 +1,8 @@
 (* C15  Training is equivariant, scoring invariant, under affine feature rescaling/shift. *)
 From Coq Require Import Reals List.
-From BLE Require Import Num.InstR Model.GMM Model.KMeans Model.LinScore Proofs.RLemmas Proofs.GMMLik Proofs.GMMStats Proofs.KMeansR Proofs.LinScoreR Proofs.Affine.
+From BLE Require Import Model.IVector Proofs.IVectorR Proofs.IVAffine.
+From BLE Require Import Model.FA Proofs.FAEnroll Proofs.FAAffine.
+From BLE Require Import Num.InstR Model.GMM Model.KMeans Model.LinScore Proofs.RLemmas Proofs.GMMLik Proofs.GMMStats Proofs.KMeansR Proofs.LinScoreR Proofs.Affine Proofs.GMMFit Proofs.KMeansFit Proofs.AffineStop.
 Import ListNotations.
 Open Scope R_scope.
 
@@ -65,3 +67,75 @@ Proof.
   - exact (closest_similarity D s t cents x Hs Ht Hx Hr).
 Qed.
 Print Assumptions C15_kmeans_similarity.
+
+(* Stopping rules under a change of units.  k-means: a uniform scaling multiplies every reported criterion by s^2, translations and
+   rotations leave it unchanged, and the relative-change test gives the same verdict.  GMM: every reported log-likelihood shifts by
+   k = -sum ln|a| and the relative-change test on the shifted values is |prev - cur| / |prev + k| <= th - a different test.  The
+   claim "the GMM stopping test is invariant under the shift" is REFUTED with a witness (known finding D14, DESIGN.md 9.4): with a
+   convergence threshold the stopping iteration, hence the trained model, depends on the units of the features. *)
+Theorem C15_kmeans_stopping_rule_invariant_under_scaling cthr c cur prev rest : c <> 0 -> prev <> 0 ->
+  KMeansFit.stops cthr (map (Rmult c) (cur :: prev :: rest)) = KMeansFit.stops cthr (cur :: prev :: rest).
+Proof. exact (kmeans_stop_rule_scale_invariant cthr c cur prev rest). Qed.
+Print Assumptions C15_kmeans_stopping_rule_invariant_under_scaling.
+
+Theorem C15_gmm_stopping_rule_after_rescaling th cur prev rest k :
+  GMMFit.stops (Some th) (map (fun l => l + k) (cur :: prev :: rest)) = true <-> Rabs ((prev - cur) / (prev + k)) <= th.
+Proof. exact (gmm_stop_after_shift th cur prev rest k). Qed.
+Print Assumptions C15_gmm_stopping_rule_after_rescaling.
+
+Theorem C15_gmm_stopping_rule_invariant_under_rescaling_refuted :
+  exists th cur prev k, GMMFit.stops (Some th) [cur; prev] = true
+                        /\ GMMFit.stops (Some th) (map (fun l => l + k) [cur; prev]) = false.
+Proof. exact gmm_stop_rule_shift_invariant_refuted. Qed.
+Print Assumptions C15_gmm_stopping_rule_invariant_under_rescaling_refuted.
+
+(* i-vectors: with the extractor transformed like the features (UBM means a*mu+b, covariances a^2*sigma, row d of every T_c scaled
+   by a_d) and the statistics of the transformed data, the posterior precision and linear term - hence the i-vector, whatever
+   the external solver does with them - are unchanged; one training iteration with fixed covariances is equivariant. *)
+Theorem C15_ivector_invariant (inv : list (list R) -> list (list R)) (C D t : nat) (a b : list R) (m : IR.ivm) (s : IR.gstat) :
+  scale_ok D a b -> ivm_ok C D t m -> IVectorR.gstat_ok C D s ->
+  IR.precision t (aff_ivm a b m) (aff_gstat a b s) = IR.precision t m s
+  /\ IR.linterm t (aff_ivm a b m) (aff_gstat a b s) = IR.linterm t m s
+  /\ IR.project inv t (aff_ivm a b m) (aff_gstat a b s) = IR.project inv t m s.
+Proof.
+  intros H1 H2 H3. split; [exact (precision_affine C D t a b m s H1 H2 H3)|].
+  split; [exact (linterm_affine C D t a b m s H1 H2 H3)|exact (project_affine inv C D t a b m s H1 H2 H3)].
+Qed.
+Print Assumptions C15_ivector_invariant.
+
+Theorem C15_ivector_training_iteration_equivariant (inv : list (list R) -> list (list R)) (C D t : nat) (floor : R) (a b : list R)
+    (m : IR.ivm) (X : list IR.gstat) :
+  scale_ok D a b -> ivm_ok C D t m -> Forall (IVectorR.gstat_ok C D) X ->
+  let m1 := IR.m_step inv D t false floor m (IR.e_step inv C D t m X) in
+  let m1' := IR.m_step inv D t false floor (aff_ivm a b m) (IR.e_step inv C D t (aff_ivm a b m) (map (aff_gstat a b) X)) in
+  IR.iv_T m1' = IR.iv_T (aff_ivm a b m1) /\ IR.iv_sigma m1' = IR.iv_sigma (aff_ivm a b m1) /\ IR.iv_mu m1' = IR.iv_mu (aff_ivm a b m1).
+Proof. exact (m_step_affine inv C D t floor a b m X). Qed.
+Print Assumptions C15_ivector_training_iteration_equivariant.
+
+(* ISV / JFA: with the UBM transformed like the features and every row j = (c, d) of U, V and entry j of D scaled by a_d, the channel
+   factor of a probe, the enrolled ISV offset z and the enrolled JFA factors (y, z) are unchanged after any number of enrolment
+   iterations (whatever the external inverse does: it is applied to the same matrices), and the client mean follows the features. *)
+Theorem C15_channel_factor_invariant (inv : list (list R) -> list (list R)) (C D rU rV : nat) (a b : list R) (u : FR.ubm) (F : FR.fa) (X : list FR.gstat) :
+  scale_ok D a b -> ubm_ok C D u -> fa_ok C D rU rV F -> Forall (FAEnroll.gstat_ok C D) X ->
+  FR.estimate_x inv rU D (aff_ubm a b u) (aff_fa C a F) (map (aff_gs a b) X) = FR.estimate_x inv rU D u F X.
+Proof. exact (estimate_x_affine inv C D rU rV a b u F X). Qed.
+Print Assumptions C15_channel_factor_invariant.
+
+Theorem C15_isv_enrolment_invariant (inv : list (list R) -> list (list R)) (iters C D rU rV : nat) (a b : list R) (u : FR.ubm) (F : FR.fa) (X : list FR.gstat) :
+  scale_ok D a b -> ubm_ok C D u -> fa_ok C D rU rV F -> Forall (FAEnroll.gstat_ok C D) X ->
+  FR.isv_enroll inv iters rU D (aff_ubm a b u) (aff_fa C a F) (map (aff_gs a b) X) = FR.isv_enroll inv iters rU D u F X.
+Proof. exact (isv_enroll_affine inv iters C D rU rV a b u F X). Qed.
+Print Assumptions C15_isv_enrolment_invariant.
+
+Theorem C15_jfa_enrolment_invariant (inv : list (list R) -> list (list R)) (iters C D rU rV : nat) (a b : list R) (u : FR.ubm) (F : FR.fa) (X : list FR.gstat) :
+  scale_ok D a b -> ubm_ok C D u -> fa_ok C D rU rV F -> Forall (FAEnroll.gstat_ok C D) X ->
+  FR.jfa_enroll inv iters rU rV D (aff_ubm a b u) (aff_fa C a F) (map (aff_gs a b) X) = FR.jfa_enroll inv iters rU rV D u F X.
+Proof. exact (jfa_enroll_affine inv iters C D rU rV a b u F X). Qed.
+Print Assumptions C15_jfa_enrolment_invariant.
+
+Theorem C15_client_mean_follows_the_features (C D rU rV : nat) (a b : list R) (u : FR.ubm) (F : FR.fa) (y : option (list R)) (z : list R) :
+  scale_ok D a b -> ubm_ok C D u -> fa_ok C D rU rV F -> length z = (C * D)%nat -> yopt_ok rV y ->
+  FR.client_mean (aff_ubm a b u) (aff_fa C a F) y z
+  = FR.V.map3 (fun Aj Bj x => Aj * x + Bj) (sup C a) (sup C b) (FR.client_mean u F y z).
+Proof. exact (client_mean_affine C D rU rV a b u F y z). Qed.
+Print Assumptions C15_client_mean_follows_the_features.
